@@ -4,6 +4,8 @@ import Quanto.Spec.C04
 import Quanto.Spec.C02
 import Quanto.Spec.C06
 import Quanto.AwqBits
+import Quanto.OpsWire
+import Quanto.Spec.C05
 open Quanto
 
 /-- scalar-or-per-element lookup -/
@@ -172,6 +174,17 @@ def handle (toks : List String) : String :=
       let back := a.toQBits F 4
       let fromPat (nn : Nat) : Int := if nn ≥ 2 ^ 15 then (nn : Int) - 2 ^ 16 else nn
       s!"{showShape a.packed.shape} {showIntList (a.packed.data.toList.map fromPat)} {showShape a.scale.shape} {showFT F a.scale} {showFT F a.zs} {showShape d.shape} {showFT F d} {showShape back.data.shape} {showNatList back.data.data.toList} {showFT F back.scale} {showIntList back.zero.data.toList}"
+  -- C05/C06: op05 name params n vals…
+  | "op05" :: name :: params :: n :: rest =>
+      let (vals, _) := parseVals n.toNat! rest
+      showVal (runOp05 name params vals)
+  | ["spec05r", fc, f, qm, kn, kd, yb, rb] =>
+      let Fc := fmtOfName fc
+      let F := fmtOfName f
+      let k : Rat := (kn.toInt! : Rat) / (kd.toNat! : Rat)
+      let ys := ((parseNatList yb).map F.decode).toArray
+      let rs := ((parseNatList rb).map F.decode).toArray
+      firstFails ((List.range ys.size).map fun i => if specRescale Fc (qm.toNat! : Rat) k ys[i]! rs[i]! then "ok" else "rescale-error")
   -- C04
   | ["pack", bits, shape, data] =>
       let t : T Nat := ⟨parseShape shape, (parseNatList data).toArray⟩
